@@ -385,18 +385,18 @@ type mdField struct {
 }
 
 type mdSpec struct {
-	name, file               string
-	num                      uint64
-	valsLen, bound           uint64
-	stateLen, expBound       uint64
-	stateField               uint64 // struct's state array length
-	isExpBound               uint64
-	hasIsExp, hasMark        bool
-	hasDevs                  bool
-	markCases, docCases      []uint64
-	fields                   []*mdField
-	byName                   map[string]*mdField
-	scaled                   []string
+	name, file          string
+	num                 uint64
+	valsLen, bound      uint64
+	stateLen, expBound  uint64
+	stateField          uint64 // struct's state array length
+	isExpBound          uint64
+	hasIsExp, hasMark   bool
+	hasDevs             bool
+	markCases, docCases []uint64
+	fields              []*mdField
+	byName              map[string]*mdField
+	scaled              []string
 }
 
 // constant expression -> (value bits, ok)
@@ -617,10 +617,10 @@ var (
 		`if mesg\.Fields\[i\]\.Num > (\d+) \|\| mesg\.Fields\[i\]\.Name == factory\.NameUnknown \{ unknownFields = append\(unknownFields, mesg\.Fields\[i\]\) continue \} ` +
 		`(?:if mesg\.Fields\[i\]\.Num < (\d+) && mesg\.Fields\[i\]\.IsExpandedField \{ pos := mesg\.Fields\[i\]\.Num / 8 state\[pos\] \|= 1 << \(mesg\.Fields\[i\]\.Num - \(8 \* pos\)\) \} )?` +
 		`vals\[mesg\.Fields\[i\]\.Num\] = mesg\.Fields\[i\]\.Value \} unknownFields = sliceutil\.Clone\(unknownFields\) \*arr = \[poolsize\]proto\.Field\{\} pool\.Put\(arr\) (developerFields = mesg\.DeveloperFields )?\}$`)
-	reToPrefix = regexp.MustCompile(`^if options == nil \{ options = defaultOptions \} else if options\.Factory == nil \{ options\.Factory = factory\.StandardFactory\(\) \} fac := options\.Factory arr := pool\.Get\(\)\.\(\*\[poolsize\]proto\.Field\) fields := arr\[:0\] mesg := proto\.Message\{Num: typedef\.(MesgNum\w+)\}$`)
-	toSuffixA  = `for i := range m.UnknownFields { fields = append(fields, m.UnknownFields[i]) } mesg.Fields = make([]proto.Field, len(fields)) copy(mesg.Fields, fields) *arr = [poolsize]proto.Field{} pool.Put(arr) `
-	toSuffixB  = `return mesg`
-	toSuffixD  = `mesg.DeveloperFields = m.DeveloperFields `
+	reToPrefix  = regexp.MustCompile(`^if options == nil \{ options = defaultOptions \} else if options\.Factory == nil \{ options\.Factory = factory\.StandardFactory\(\) \} fac := options\.Factory arr := pool\.Get\(\)\.\(\*\[poolsize\]proto\.Field\) fields := arr\[:0\] mesg := proto\.Message\{Num: typedef\.(MesgNum\w+)\}$`)
+	toSuffixA   = `for i := range m.UnknownFields { fields = append(fields, m.UnknownFields[i]) } mesg.Fields = make([]proto.Field, len(fields)) copy(mesg.Fields, fields) *arr = [poolsize]proto.Field{} pool.Put(arr) `
+	toSuffixB   = `return mesg`
+	toSuffixD   = `mesg.DeveloperFields = m.DeveloperFields `
 	rePlainBody = regexp.MustCompile(`^\{ field := fac\.CreateField\(mesg\.Num, (\d+)\) field\.Value = (.+) fields = append\(fields, field\) \}$`)
 	reFixBody   = regexp.MustCompile(`^\{ field := fac\.CreateField\(mesg\.Num, (\d+)\) copied := m\.(\w+) field\.Value = proto\.(\w+)\(copied\[:\]\) fields = append\(fields, field\) \}$`)
 	reExpBody   = regexp.MustCompile(`^\{ if expanded := m\.IsExpandedField\((\d+)\); !expanded \|\| \(expanded && options\.IncludeExpandedFields\) \{ field := fac\.CreateField\(mesg\.Num, (\d+)\) field\.Value = (.+) field\.IsExpandedField = expanded fields = append\(fields, field\) \} \}$`)
